@@ -107,3 +107,33 @@ package lease
 //@   d := l.Date()
 //@   assert(d.Time().Equal(l.Time()))
 //@ }
+
+// C15 (last sentence): a lease whose end date lies a day in the past is
+// reported expired, one a day in the future is not - for every end date the
+// field can hold (A-CLOCK: readings of time.Now() on a path do not decrease).
+//@ lemma C15_LeaseIsExpired(l Lease) {
+//@   assume(val(l[36:44]) < 9007199254740992)
+//@   t0 := time.Now()
+//@   ex := l.IsExpired()
+//@   t1 := time.Now()
+//@   end := time.UnixMilli(int64(val(l[36:44])))
+//@   if end.Before(t0.Add(-24 * time.Hour)) {
+//@     assert(ex)
+//@   }
+//@   if end.After(t1.Add(24 * time.Hour)) {
+//@     assert(!ex)
+//@   }
+//@ }
+
+//@ lemma C15_Lease2IsExpired(l Lease2) {
+//@   t0 := time.Now()
+//@   ex := l.IsExpired()
+//@   t1 := time.Now()
+//@   end := time.Unix(int64(val(l[36:40])), 0)
+//@   if end.Before(t0.Add(-24 * time.Hour)) {
+//@     assert(ex)
+//@   }
+//@   if end.After(t1.Add(24 * time.Hour)) {
+//@     assert(!ex)
+//@   }
+//@ }
